@@ -399,8 +399,12 @@ func TestC14Forms(t *testing.T) {
 				subs[d] = pick("goodSubscript", "'a'", "'b'", "0", "1")
 			}
 			subs[1] = pick("firstSubscript", "'a'", "'b'") // a JSON object is addressed by member name
+			viaName := rapid.Bool().Draw(rt, "cascadeOnName")
 			build = func(faulty bool) string {
 				e := "json(value)"
+				if viaName {
+					e = "j" // the JSON value reached through the name of a select field
+				}
 				for d := 1; d <= depth; d++ {
 					if d == at && faulty {
 						e += "[" + bad + "]"
@@ -408,15 +412,21 @@ func TestC14Forms(t *testing.T) {
 						e += "[" + subs[d] + "]"
 					}
 				}
+				sel := "select "
+				if viaName {
+					sel = "select json(value) as j, "
+				}
 				switch ctx {
 				case 0:
-					return "select key, " + e + " where key ^= 'a'"
+					return sel + "key, " + e + " where key ^= 'a'"
 				case 1:
-					return "select key where " + e + " = 'x'"
+					return sel + "key where " + e + " = 'x'"
 				case 2:
-					return "delete where upper(" + e + ") != 'X'"
+					if !viaName {
+						return "delete where upper(" + e + ") != 'X'"
+					}
 				}
-				return "select " + wrap(0, e) + " as x1, key where key ^= 'a' order by key"
+				return sel + wrap(0, e) + " as x1, key where key ^= 'a' order by key"
 			}
 		case 1:
 			fault = "aggregate-inside-aggregate-argument"
@@ -538,6 +548,11 @@ func TestC14Forms(t *testing.T) {
 			labels = append(labels, "form-control-refused")
 			if os.Getenv("VERIF_C14_CONTROLS") != "" {
 				fmt.Printf("CONTROL REFUSED: %q (%v) for %q\n", control, cb.BuildErr, q)
+			} else if msg == "" {
+				// the forms are built so that only the fault is wrong with them
+				// (every control is accepted on the tree the leg was written for)
+				msg = fmt.Sprintf("statement %q is well-typed by the documented rules (it is %q with the fault %s taken out) but is refused: %v", control, q, fault, cb.BuildErr)
+				c = &c14Case{Raw: control, Pairs: pairs}
 			}
 		} else {
 			labels = append(labels, "form-control-accepted")
